@@ -95,7 +95,10 @@ func (c *Contract) HasProp(p string) bool {
 	return false
 }
 
-var kwRe = regexp.MustCompile(`^(prop|func|lemma|case|inline-calls|requires|ensures|modifies|preserves|callees-preserve|alloc-bound|nosafety|inline-depth|may-panic|maybe-nil|inline|trusted|noverify|sweep|loop|invariant|exit-assume|unroll|iface)\b(\[[A-Za-z0-9_\-\.]+\])?\s*(.*)$`)
+// Thorough: the thorough tier is running (clauses labelled [...@thorough] are included).
+var Thorough bool
+
+var kwRe = regexp.MustCompile(`^(prop|func|lemma|case|inline-calls|requires|ensures|modifies|preserves|callees-preserve|alloc-bound|nosafety|inline-depth|may-panic|maybe-nil|inline|trusted|noverify|sweep|loop|invariant|exit-assume|unroll|iface)\b(\[[A-Za-z0-9_\-\.@]+\])?\s*(.*)$`)
 
 // ParseContractFile extracts //@ blocks from one Go file.
 func ParseContractFile(path, pkgPath string) ([]*Contract, error) {
@@ -160,6 +163,9 @@ func ParseContractFile(path, pkgPath string) ([]*Contract, error) {
 		case "requires":
 			cur.Requires = append(cur.Requires, cl)
 		case "ensures":
+			if strings.HasSuffix(cl.Label, "@thorough") && !Thorough {
+				return nil // a clause that is only attempted in the thorough tier (minutes of solver time)
+			}
 			cur.Ensures = append(cur.Ensures, cl)
 		case "may-panic":
 			cur.MayPanic = append(cur.MayPanic, cl)
@@ -239,6 +245,9 @@ func ParseContractFile(path, pkgPath string) ([]*Contract, error) {
 		case "invariant":
 			if curLoop == nil {
 				return fmt.Errorf("%s:%d: invariant outside loop", path, p.line)
+			}
+			if strings.HasSuffix(cl.Label, "@thorough") && !Thorough {
+				return nil
 			}
 			curLoop.Invs = append(curLoop.Invs, cl)
 		case "exit-assume":
